@@ -201,6 +201,15 @@ pub assume_specification<T, P> [std::option::Option::<T>::filter] (o: std::optio
 // expression is that name as a &CStr
 #[verifier::external_body] pub fn cstr_of_dirent_name<'a>(name: &'a [u8]) -> (r: &'a CStr) ensures r@ == name@ { unimplemented!() }
 pub uninterp spec fn forget_allowed(g: Lg, inode: Inode, count: u64) -> bool;
+// the forgets that can have an effect: the root (inode 1) is never forgotten
+pub open spec fn nonroot(s: Seq<(Inode, u64)>) -> Seq<(Inode, u64)> decreases s.len() {
+    if s.len() == 0 { Seq::<(Inode, u64)>::empty() } else if s.last().0 == 1 { nonroot(s.drop_last()) } else { nonroot(s.drop_last()).push(s.last()) }
+}
+pub proof fn lemma_nonroot_push(s: Seq<(Inode, u64)>, x: (Inode, u64))
+    ensures nonroot(s.push(x)) =~= (if x.0 == 1 { nonroot(s) } else { nonroot(s).push(x) })
+{
+    assert(s.push(x).drop_last() =~= s); assert(s.push(x).last() == x);
+}
 // ---- std::collections::btree_map::Entry on the generator's table `Mutex<BTreeMap<DevMntIDPair, u8>>`; the table's contents are
 //      `lg.devmap` (sequential: the mutex is held for the whole probe-then-insert)
 pub mod btree_map {
@@ -655,6 +664,7 @@ def unit(root='/repo'):
         Raw(pre),
         ByteConst(VMOD, 'CURRENT_DIR_CSTR'), ByteConst(VMOD, 'PARENT_DIR_CSTR'),
         Copy(VMOD, r'pub const VFS_MAX_INO\b'),
+        Copy(FSMOD, r'pub struct Context\b', prefix='#[derive(Clone, Copy)]', subst=[('libc::uid_t', 'u32'), ('libc::gid_t', 'u32'), ('libc::pid_t', 'i32')]),
         Group('pub mod fuse {', [Copy(ABI, r'pub const ROOT_ID\b'), Copy(ABI, r'pub const FUSE_ATTR_DAX\b')]),
         Copy(PT, r'const MAX_HOST_INO\b'),
         Copy(UTIL, r'const VIRTUAL_INODE_FLAG\b'),
@@ -753,6 +763,31 @@ def unit(root='/repo'):
                             'final(lg).store == *final(inodes) && final(lg).base == old(lg).base',
                             _fn_of(inu, 'forget_one').ensures[1].split('//')[0]])),
             readdir_cb, readdirplus_cb,
+            # the FORGET / BATCH_FORGET entry points: "minus the counts the client has forgotten" - every (inode, count) pair is applied, once, in order.
+            # Stated over the NON-ROOT part of the forget log (the root can never be forgotten: whether the guard sits in forget_one or in its callers is immaterial)
+            tok(Fn(PTS, FSIMPL, 'forget', props=['C08'], canary=True,
+                   requires=['self.tok(*old(lg))', 'forall|g: Lg, i: Inode, c: u64| #[trigger] forget_allowed(g, i, c) <==> (i == inode && c == count && g.fg == old(lg).fg) // [C08.forget.cap]'],
+                   ensures=['nonroot(final(lg).fg) =~= nonroot(old(lg).fg.push((inode, count))) // [C08.forget.applied]'],
+                   splices=[('^', 'after', 'proof { lemma_nonroot_push(old(lg).fg, (inode, count)); }')]),
+                callees=['get_map_mut', 'forget_one']),
+            tok(Fn(PTS, FSIMPL, 'batch_forget', props=['C08'], canary=True,
+                   requires=['self.tok(*old(lg))',
+                             'forall|g: Lg, i: Inode, c: u64| #[trigger] forget_allowed(g, i, c) <==> (exists|k: int| 0 <= k < requests@.len() && nonroot(g.fg) =~= nonroot(old(lg).fg + requests@.take(k)) && requests@[k] == (i, c)) // [C08.batch_forget.cap]'],
+                   ensures=['nonroot(final(lg).fg) =~= nonroot(old(lg).fg + requests@) // [C08.batch_forget.all] every pair of the request is applied exactly once, in order'],
+                   body_resub=[(r'for \(inode, count\) in requests \{', 'for pair_ in it_: requests.iter() { let (inode, count) = *pair_;', 'for (a, b) in VEC by value -> by reference + copy of the Copy pair (tuple patterns in `for` are not supported)')],
+                   splices=[('^', 'after', 'proof { assert(old(lg).fg + requests@.take(0) =~= old(lg).fg); assert(requests@.take(requests@.len() as int) =~= requests@); }'),
+                            ('for pair_ in it_: requests.iter() {', 'replace', '''for pair_ in it_: requests.iter()
+                invariant nonroot(lg.fg) =~= nonroot(old(lg).fg + requests@.take(it_.index@)), inodes.st == lg.store, self.tok(*lg),
+                    forall|g: Lg, i: Inode, c: u64| #[trigger] forget_allowed(g, i, c) <==> (exists|k: int| 0 <= k < requests@.len() && nonroot(g.fg) =~= nonroot(old(lg).fg + requests@.take(k)) && requests@[k] == (i, c)),
+            {'''),
+                            ('let (inode, count) = *pair_;', 'after', '''proof {
+                let k = it_.index@;
+                assert(requests@.take(k + 1) =~= requests@.take(k).push(requests@[k]));
+                assert(old(lg).fg + requests@.take(k + 1) =~= (old(lg).fg + requests@.take(k)).push(requests@[k]));
+                lemma_nonroot_push(old(lg).fg + requests@.take(k), requests@[k]); lemma_nonroot_push(lg.fg, requests@[k]);
+            }'''),
+                            ]),
+                callees=['get_map_mut', 'forget_one']),
         ]),
     ]
     return Unit('ptlookup', items, preludes=['base.rs', 'stdmodel.rs'],
